@@ -304,6 +304,15 @@ func (in *Interp) NewObj(t types.Type, v Value, tag string) *Obj {
 // NewSym makes an opaque value.
 func NewSym(expr string, t types.Type) *Sym { return &Sym{Expr: expr, T: t} }
 
+// SymMem reads symbolic memory.
+func (in *Interp) SymMem(addr string) (Value, bool) {
+	v, ok := in.symMem[addr]
+	return v, ok
+}
+
+// Concretize forks on a finite-domain symbol (exported for intrinsics).
+func (in *Interp) Concretize(v Value) Value { return in.concretize(v) }
+
 // SetSymMem binds a symbolic address (e.g. "s.annotation") to a value.
 func (in *Interp) SetSymMem(addr string, v Value) { in.symMem[addr] = v }
 
@@ -792,13 +801,6 @@ func (in *Interp) concretize(v Value) Value {
 	if s.Off != 0 && s.Dom == "" {
 		return v
 	}
-	if b, ok := s.T.Underlying().(*types.Basic); ok && b.Kind() == types.Uint8 && s.Off == 0 && s.Dom == "" {
-		labels := make([]string, 256)
-		for i := range labels {
-			labels[i] = fmt.Sprint(i)
-		}
-		return int64(in.Choose(s.Expr, labels))
-	}
 	if s.Dom == "byte" {
 		labels := make([]string, 256)
 		for i := range labels {
@@ -815,6 +817,13 @@ func (in *Interp) concretize(v Value) Value {
 			labels[i] = e.name
 		}
 		return enum[in.Choose(s.Expr, labels)].val
+	}
+	if b, ok := s.T.Underlying().(*types.Basic); ok && b.Kind() == types.Uint8 && s.Off == 0 && s.Dom == "" {
+		labels := make([]string, 256)
+		for i := range labels {
+			labels[i] = fmt.Sprint(i)
+		}
+		return int64(in.Choose(s.Expr, labels))
 	}
 	return v
 }
@@ -1965,6 +1974,14 @@ func (in *Interp) boundsCheck(a *Sym, idx Value) {
 			in.Panic(&Sym{Expr: "runtime error: index out of range"})
 		}
 	}
+}
+
+// CallValue calls a function value (closure or bound method).
+func (in *Interp) CallValue(c *Closure, args []Value) Value {
+	if len(c.Bind) == 0 {
+		return in.Call(c.Fn, args)
+	}
+	return in.callClosure(c, args)
 }
 
 // GlobalPtr returns a pointer to a package-level variable (running the package initialiser first).
